@@ -166,6 +166,17 @@ FASTOR_INLINE TensorMap<T,pack_prod<Rest...>::value> flatten(const Tensor<T,Rest
     return TensorMap<T,pack_prod<Rest...>::value>(a.data());
 }
 
+/* reshape and flatten of a TensorMap: a view in to the same storage as the map */
+template<size_t ... shapes,typename T, size_t ... Rest>
+FASTOR_INLINE TensorMap<T,shapes...> reshape(const TensorMap<T,Rest...> &a) {
+    static_assert(pack_prod<shapes...>::value==pack_prod<Rest...>::value, "SIZE OF TENSOR SHOULD REMAIN THE SAME DURING RESHAPE");
+    return TensorMap<T,shapes...>(a.data());
+}
+template<typename T, size_t ... Rest>
+FASTOR_INLINE TensorMap<T,pack_prod<Rest...>::value> flatten(const TensorMap<T,Rest...> &a) {
+    return TensorMap<T,pack_prod<Rest...>::value>(a.data());
+}
+
 
 
 
